@@ -58,6 +58,34 @@ type tcase struct {
 	Readers   []string `json:"readers"`
 	Ops       []op     `json:"ops"`
 	TieSeed   uint64   `json:"tie_seed"`
+	// UnitNs is the length of one timeline unit in nanoseconds (0: 1 ms). The
+	// same timelines are played at several scales, so that timeouts, stalls
+	// and maximum compensations of seconds, minutes and weeks (seconds field
+	// of the Action's timeout set, more than 2^31 ms) and durations that are
+	// no whole number of milliseconds are reached as well.
+	UnitNs int64 `json:"unit_ns,omitempty"`
+}
+
+func (c tcase) unitLen() time.Duration {
+	if c.UnitNs <= 0 {
+		return unit
+	}
+	return time.Duration(c.UnitNs)
+}
+
+// scaleName names the scale of a timeline for the situation counters.
+func (c tcase) scaleName() string {
+	switch u := c.unitLen(); {
+	case u%time.Millisecond != 0:
+		return "millisecond-plus-nanosecond"
+	case u >= 24*time.Hour:
+		return "weeks"
+	case u >= time.Minute:
+		return "minutes"
+	case u >= time.Second:
+		return "seconds"
+	}
+	return "milliseconds"
 }
 
 func pick(rng *rand.Rand, xs ...int) int { return xs[rng.IntN(len(xs))] }
@@ -95,6 +123,23 @@ func generate(r *ev.Run, idx int, kind string) tcase {
 		c.Ops = append(c.Ops, op{At: c.Start + rng.IntN(T+c.MaxSusp+3), What: "parent-cancel", Reader: -1})
 	}
 	sort.SliceStable(c.Ops, func(i, j int) bool { return c.Ops[i].At < c.Ops[j].At })
+	// Scale of the timeline, drawn last so that everything else is as it was
+	// before scales existed. No duration of a scaled timeline may fall into
+	// the window that identifies the executor's housekeeping timers, and an
+	// executor timeline must stay well below the upload delay in total.
+	switch rng.IntN(10) {
+	case 5:
+		c.UnitNs = int64(time.Millisecond + time.Nanosecond)
+	case 6, 7:
+		c.UnitNs = int64(time.Second)
+	case 8:
+		c.UnitNs = int64(time.Minute)
+	case 9:
+		c.UnitNs = int64(7 * 24 * time.Hour)
+		if kind == "executor" {
+			c.UnitNs = int64(time.Millisecond + time.Nanosecond)
+		}
+	}
 	return c
 }
 
@@ -233,14 +278,15 @@ type readerState struct {
 }
 
 type run struct {
-	r   *ev.Run
-	c   tcase
-	clk *vclock.Clock
-	sc  *re_clock.SuspendableClock
-	ba  blobstore.BlobAccess
-	df  cas.DirectoryFetcher
-	gb  *gatedBase
-	tie *rand.Rand
+	r    *ev.Run
+	c    tcase
+	unit time.Duration // length of one timeline unit
+	clk  *vclock.Clock
+	sc   *re_clock.SuspendableClock
+	ba   blobstore.BlobAccess
+	df   cas.DirectoryFetcher
+	gb   *gatedBase
+	tie  *rand.Rand
 
 	nowU  int
 	count int   // net suspensions as executed by the harness
@@ -345,7 +391,7 @@ func (x *run) violation(sig, detail string) {
 	x.r.Violation("C11 "+sig+" object="+x.c.Kind, detail, map[string]any{"case": x.c, "history": x.hist, "detail": detail})
 }
 
-func (x *run) at(u int) time.Time { return time.Unix(1000, 0).UTC().Add(time.Duration(u) * unit) }
+func (x *run) at(u int) time.Time { return time.Unix(1000, 0).UTC().Add(time.Duration(u) * x.unit) }
 
 // wait polls cond (no wall-clock reading decides anything; the watchdog only
 // yields "inconclusive").
@@ -371,13 +417,14 @@ func (x *run) wait(what string, cond func() bool) bool {
 }
 
 func runCase(r *ev.Run, c tcase) {
-	r.Case("case %d kind=%s timeout=%d threshold=%d maxcomp=%d start=%d readers=%v ops=%d", c.Idx, c.Kind, c.Timeout, c.Threshold, c.MaxSusp, c.Start, c.Readers, len(c.Ops))
+	r.Case("case %d kind=%s unit=%v timeout=%d threshold=%d maxcomp=%d start=%d readers=%v ops=%d", c.Idx, c.Kind, c.unitLen(), c.Timeout, c.Threshold, c.MaxSusp, c.Start, c.Readers, len(c.Ops))
 	clk := vclock.New(1000)
 	lc := &lateClock{Clock: clk}
+	unit := c.unitLen()
 	sc := re_clock.NewSuspendableClock(lc, time.Duration(c.MaxSusp)*unit, time.Duration(c.Threshold)*unit)
 	gb := &gatedBase{calls: map[int]*parked{}}
 	x := &run{
-		r: r, c: c, clk: clk, lc: lc, sc: sc, gb: gb,
+		r: r, c: c, clk: clk, lc: lc, sc: sc, gb: gb, unit: unit,
 		ba:          re_blobstore.NewSuspendingBlobAccess(gb, sc),
 		df:          cas.NewSuspendingDirectoryFetcher(gb, sc),
 		tie:         rand.New(rand.NewPCG(c.TieSeed, 99)),
@@ -403,7 +450,7 @@ func runCase(r *ev.Run, c tcase) {
 	x.play()
 	x.teardown()
 	nontrivial := len(x.sits) > 0
-	r.Hash(ev.HashOf(c.Kind, c.Timeout, c.Threshold, c.MaxSusp, strings.Join(x.hist, "|")), nontrivial)
+	r.Hash(ev.HashOf(c.Kind, c.UnitNs, c.Timeout, c.Threshold, c.MaxSusp, strings.Join(x.hist, "|")), nontrivial)
 	r.Count("timeline_events", len(c.Ops))
 	if nontrivial && r.WantSample() && len(x.hist) > 8 {
 		h := x.hist
@@ -487,7 +534,7 @@ func (x *run) play() {
 		}
 		nextTimer := 1 << 30
 		if nd, ok := x.clk.NextDeadline(); ok && x.created && !x.finished && !x.stopped {
-			nextTimer = int(nd.Sub(x.at(0)) / unit)
+			nextTimer = int(nd.Sub(x.at(0)) / x.unit)
 			if nextTimer < x.nowU {
 				nextTimer = x.nowU
 			}
@@ -719,7 +766,7 @@ func (x *run) create() {
 		}
 	}
 	before := x.relevantCreated()
-	d := time.Duration(x.c.Timeout) * unit
+	d := time.Duration(x.c.Timeout) * x.unit
 	switch x.c.Kind {
 	case "context":
 		parent, pc := context.WithCancel(context.WithValue(context.Background(), passThroughKey{}, x.c.Idx))
@@ -911,9 +958,9 @@ func (x *run) onFinish(cause string) {
 	// be the unsuspended time of any instant between due and delivery.
 	reportedOK := func(val time.Duration) bool {
 		if x.lastHeld && cause == "base timer" {
-			return val >= time.Duration(x.lastDueRan)*unit && val <= time.Duration(ran)*unit
+			return val >= time.Duration(x.lastDueRan)*x.unit && val <= time.Duration(ran)*x.unit
 		}
-		return val == time.Duration(ran)*unit
+		return val == time.Duration(ran)*x.unit
 	}
 	switch x.c.Kind {
 	case "context":
@@ -931,7 +978,7 @@ func (x *run) onFinish(cause string) {
 			x.violation("done-context-without-error", fmt.Sprintf("Done() is closed but Err()=%v", err))
 		}
 		if !reportedOK(val) {
-			x.violation("reported-unsuspended-duration-wrong cause="+causeClass(err), fmt.Sprintf("UnsuspendedDurationKey=%v, the command ran %v unsuspended (start %d, now %d; %v at the due instant t=%d of the last expiry)", val, time.Duration(ran)*unit, x.startAt, x.nowU, time.Duration(x.lastDueRan)*unit, x.lastDueAt))
+			x.violation("reported-unsuspended-duration-wrong cause="+causeClass(err), fmt.Sprintf("UnsuspendedDurationKey=%v, the command ran %v unsuspended (start %d, now %d; %v at the due instant t=%d of the last expiry)", val, time.Duration(ran)*x.unit, x.startAt, x.nowU, time.Duration(x.lastDueRan)*x.unit, x.lastDueAt))
 		}
 		x.wait("base timers of the finished context to be stopped", func() bool { return x.relevantPending() == 0 })
 	case "timer":
@@ -962,8 +1009,14 @@ func (x *run) judgeDeadline(byUnsuspended, byCap bool, ran int64, capAt int) {
 	switch {
 	case byUnsuspended:
 		x.situation("deadline-by-unsuspended-time")
+		if x.c.Timeout > 0 {
+			x.situation("deadline-by-unsuspended-time-at-scale:" + x.c.scaleName())
+		}
 	case byCap:
 		x.situation("cap-reached")
+		if x.c.MaxSusp > 0 {
+			x.situation("cap-reached-at-scale:" + x.c.scaleName())
+		}
 	case ran <= int64(x.c.Timeout-x.c.Threshold):
 		x.violation("deadline-fired-early", fmt.Sprintf("fired at t=%d after only %d units of unsuspended run time (timeout %d, threshold %d, wall cap at %d)", x.nowU, ran, x.c.Timeout, x.c.Threshold, capAt))
 	default:
@@ -1042,7 +1095,7 @@ func (x *run) fireUntilDone(ctx context.Context, limit int) bool {
 		if !ok {
 			return false
 		}
-		u := int(nd.Sub(x.at(0)) / unit)
+		u := int(nd.Sub(x.at(0)) / x.unit)
 		x.advanceTo(u)
 		created := x.relevantCreated()
 		if !x.clk.FireNext(x.at(x.nowU)) {
@@ -1082,7 +1135,7 @@ func (x *run) probe() {
 	}
 	P := x.c.Threshold + 2
 	before := x.relevantCreated()
-	ctx, cancel := x.sc.NewContextWithTimeout(context.Background(), time.Duration(P)*unit)
+	ctx, cancel := x.sc.NewContextWithTimeout(context.Background(), time.Duration(P)*x.unit)
 	defer cancel()
 	if !x.wait("the probe's first base timer", func() bool { return x.relevantCreated() >= before+2 }) {
 		return
@@ -1096,7 +1149,7 @@ func (x *run) probe() {
 	val, _ := ctx.Value(re_clock.UnsuspendedDurationKey{}).(time.Duration)
 	x.logf("probe done=%v after %d units, reports %v", done, x.nowU-start, val)
 	x.r.Situation("conservation-probe-after-timeline")
-	if !done || x.nowU-start != P || val != time.Duration(P)*unit || ctx.Err() != context.DeadlineExceeded {
+	if !done || x.nowU-start != P || val != time.Duration(P)*x.unit || ctx.Err() != context.DeadlineExceeded {
 		x.violation("clock-suspended-although-no-reader-operation-in-progress",
 			fmt.Sprintf("after the timeline every reader operation has returned, yet a fresh context with timeout %d units expired=%v after %d units of wall time reporting %v unsuspended (err=%v): some suspension was never resumed", P, done, x.nowU-start, val, ctx.Err()))
 	}
@@ -1142,7 +1195,10 @@ func (x *run) secondAction() {
 	ved := resp.GetResult().GetExecutionMetadata().GetVirtualExecutionDuration().AsDuration()
 	x.logf("second action: code=%v after %d units, virtual_execution_duration=%v", code, x.nowU-start, ved)
 	x.r.Situation("later-action-on-same-clock")
-	if code != codes.DeadlineExceeded || x.nowU-start != P || ved != time.Duration(P)*unit {
+	if x.unit%time.Millisecond != 0 {
+		x.situation("executor-ran-for-no-whole-number-of-milliseconds")
+	}
+	if code != codes.DeadlineExceeded || x.nowU-start != P || ved != time.Duration(P)*x.unit {
 		x.violation("later-action-timeout-not-by-unsuspended-time",
 			fmt.Sprintf("a second action (timeout %d units, no storage activity) ended with %v after %d units of wall time and virtual_execution_duration=%v", P, code, x.nowU-start, ved))
 	}
@@ -1194,7 +1250,7 @@ func (x *run) startExecutor() bool {
 		action := &remoteexecution.Action{
 			CommandDigest:   store.PutProto(&remoteexecution.Command{Arguments: []string{"true", fmt.Sprint(launches)}}).GetProto(),
 			InputRootDigest: store.PutProto(&remoteexecution.Directory{}).GetProto(),
-			Timeout:         durationpb.New(time.Duration(timeout) * unit),
+			Timeout:         durationpb.New(time.Duration(timeout) * x.unit),
 			DoNotCache:      (x.c.Idx+launches)%2 == 0,
 		}
 		request := &remoteworker.DesiredState_Executing{ActionDigest: store.PutProto(action).GetProto(), Action: action}
@@ -1295,6 +1351,9 @@ func (x *run) finishExecutor(cause string) {
 			x.violation("timeout-not-reported-as-deadline-exceeded", fmt.Sprintf("run context ended by timeout, response status is %v %q", code, resp.GetStatus().GetMessage()))
 		}
 		x.situation("executor-deadline-exceeded")
+		if x.c.Timeout > 0 && x.unit >= time.Second {
+			x.situation("executor-deadline-exceeded-timeout-of-seconds-or-more")
+		}
 		x.judgeDeadline(ran > T-th && ran <= T+x.slack, x.nowU == capAt, ran, capAt)
 	case "cancel":
 		if code != codes.OK || resp.GetResult().GetExitCode() != 0 {
@@ -1306,12 +1365,15 @@ func (x *run) finishExecutor(cause string) {
 			x.violation("cancelled-action-reported-otherwise", fmt.Sprintf("action cancelled by its caller, response status is %v %q", code, resp.GetStatus().GetMessage()))
 		}
 	}
-	vedOK := ved != nil && ved.AsDuration() == time.Duration(ran)*unit
+	if ran > 0 && x.unit%time.Millisecond != 0 {
+		x.situation("executor-ran-for-no-whole-number-of-milliseconds")
+	}
+	vedOK := ved != nil && ved.AsDuration() == time.Duration(ran)*x.unit
 	if ved != nil && cause == "deadline" && x.lastHeld {
-		vedOK = ved.AsDuration() >= time.Duration(x.lastDueRan)*unit && ved.AsDuration() <= time.Duration(ran)*unit
+		vedOK = ved.AsDuration() >= time.Duration(x.lastDueRan)*x.unit && ved.AsDuration() <= time.Duration(ran)*x.unit
 	}
 	if !vedOK {
-		x.violation("virtual-execution-duration-wrong cause="+cause, fmt.Sprintf("virtual_execution_duration=%v, the command ran %v unsuspended", ved.AsDuration(), time.Duration(ran)*unit))
+		x.violation("virtual-execution-duration-wrong cause="+cause, fmt.Sprintf("virtual_execution_duration=%v, the command ran %v unsuspended", ved.AsDuration(), time.Duration(ran)*x.unit))
 	}
 }
 
